@@ -1,202 +1,49 @@
 /-
-  RoProofs.Plugins.Reader — `NewIOReader` / `NewIOReaderLine` (plugins/stdio/source.go).
-
-  Documented meaning: the chunks delivered, concatenated, are the bytes the reader produced, and
-  each delivered chunk keeps showing the bytes it was delivered with.
-
-  * `ioReader_delivered_concat` : at delivery time the concatenation is right, PROVIDED no read
-    returns data together with an error (those bytes are never looked at: witness `eof_data_lost`);
-  * `retained_ne_delivered` : the chunks are windows on ONE buffer, so a kept chunk shows later
-    data (witness); `ioReader_retained_partial`: no difference when at most one read carries data;
-  * `ioReaderFixed_concat` : the repaired reader delivers exactly `produced script`, for ALL scripts;
-  * `lineReader_eq` : the line reader hands out the lines unchanged.
-  Core Lean only.
+  RoProofs.Plugins.Reader — `NewIOReader` (plugins/stdio/source.go): for EVERY script of `Read`
+  results (data together with an error included) the chunks handed to the observer are exactly the
+  data of the reads, in order — a later `Read` into the shared buffer changes none of them — and
+  their concatenation is everything the reader produced; the terminal follows the first error.
 -/
 import RoModel.Plugins.Reader
 namespace Ro.Plugins.Reader
-open Ro Ro.Plugins
 
-/-! ### 1. the delivered chunks at delivery time -/
+theorem take_overwrite (buf data : Bytes) : (overwrite buf data).take data.length = data := by
+  simp [overwrite]
 
-theorem ioReader_delivered_flatten (r : Run) (script : List Read)
-    (h : ∀ rd ∈ script, rd.err.isSome → rd.data = []) :
-    (ioReader r script).delivered.flatten = r.delivered.flatten ++ produced script := by
+/-- each chunk is the data of its read, whatever the buffer held before and whatever is read later -/
+theorem ioReader_chunks (r : Run) (script : List Read) :
+    (ioReader r script).chunks = r.chunks ++ handedOn script := by
   induction script generalizing r with
-  | nil => simp [ioReader, produced]
+  | nil => simp [ioReader, handedOn]
   | cons rd rest ih =>
     obtain ⟨data, err⟩ := rd
     cases err with
     | none =>
       have hstep : ioReader r (⟨data, none⟩ :: rest) =
-          ioReader { r with buf := overwrite r.buf data, lens := r.lens ++ [data.length],
-                            delivered := r.delivered ++ [data] } rest := rfl
-      rw [hstep, ih _ (fun x hx => h x (List.mem_cons_of_mem _ hx))]
-      simp [produced]
+          ioReader { buf := overwrite r.buf data, chunks := r.chunks ++ [(overwrite r.buf data).take data.length],
+                     term := r.term } rest := by
+        simp [ioReader]
+      rw [hstep, ih, take_overwrite]
+      simp [handedOn]
     | some e =>
-      have hd : data = [] := h ⟨data, some e⟩ (by simp) rfl
-      subst hd
-      cases e <;> simp [ioReader, produced]
+      cases e <;> cases data <;> simp [ioReader, handedOn, overwrite]
 
-theorem ioReader_delivered_concat (script : List Read)
-    (h : ∀ rd ∈ script, rd.err.isSome → rd.data = []) :
-    (runIOReader script).delivered.flatten = produced script := by
-  unfold runIOReader
-  rw [ioReader_delivered_flatten _ _ h]
-  rfl
+/-- the chunks an observer keeps are the data of the reads: no chunk is touched after delivery -/
+theorem runIOReader_chunks (script : List Read) : (runIOReader script).chunks = handedOn script := by
+  simp [runIOReader, ioReader_chunks]
 
-example : (runIOReader [⟨[1, 2], none⟩, ⟨[3], none⟩, ⟨[], some .eof⟩, ⟨[9], none⟩]).delivered.flatten = [1, 2, 3] ∧
-    produced [⟨[1, 2], none⟩, ⟨[3], none⟩, ⟨[], some .eof⟩, ⟨[9], none⟩] = [1, 2, 3] := by
-  decide
-
-/-! ### 2. / 3. the two deviations of the pinned reader -/
-
-/-- a kept chunk is a window on the shared buffer: after the second read the first chunk shows `3, 2` -/
-theorem retained_ne_delivered :
-    (runIOReader [⟨[1, 2], none⟩, ⟨[3], none⟩, ⟨[], some .eof⟩]).delivered = [[1, 2], [3]] ∧
-    (runIOReader [⟨[1, 2], none⟩, ⟨[3], none⟩, ⟨[], some .eof⟩]).retained = [[3, 2], [3]] ∧
-    (runIOReader [⟨[1, 2], none⟩, ⟨[3], none⟩, ⟨[], some .eof⟩]).term = .complete := by
-  decide
-
-/-- `n > 0` together with `io.EOF` (allowed by the io.Reader contract): the `n` bytes are lost -/
-theorem eof_data_lost :
-    (runIOReader [⟨[1, 2], none⟩, ⟨[3, 4], some .eof⟩]).delivered.flatten = [1, 2] ∧
-    produced [⟨[1, 2], none⟩, ⟨[3, 4], some .eof⟩] = [1, 2, 3, 4] ∧
-    (runIOReader [⟨[1, 2], none⟩, ⟨[3, 4], some .eof⟩]).delivered.flatten ≠
-      produced [⟨[1, 2], none⟩, ⟨[3, 4], some .eof⟩] := by
-  decide
-
-/-- … and even without being delivered they overwrite what the kept chunk shows -/
-example : (runIOReader [⟨[1, 2], none⟩, ⟨[3, 4], some .eof⟩]).retained = [[3, 4]] := by decide
-
-/-! ### 4. when keeping the chunks is harmless: at most one read carries data -/
-
-@[simp] theorem overwrite_nil (buf : Bytes) : overwrite buf [] = buf := by simp [overwrite]
-
-theorem take_overwrite (buf data : Bytes) : (overwrite buf data).take data.length = data := by
-  simp [overwrite]
-
-/-- reads without data leave the buffer alone -/
-theorem ioReader_dataless (r : Run) (script : List Read) (h : ∀ rd ∈ script, rd.data = [])
-    (hr : r.retained = r.delivered) :
-    (ioReader r script).retained = (ioReader r script).delivered := by
-  induction script generalizing r with
-  | nil => exact hr
-  | cons rd rest ih =>
-    obtain ⟨data, err⟩ := rd
-    have hd : data = [] := h ⟨data, err⟩ (by simp)
-    subst hd
-    cases err with
-    | none =>
-      have hstep : ioReader r (⟨[], none⟩ :: rest) =
-          ioReader { r with buf := overwrite r.buf [], lens := r.lens ++ [0],
-                            delivered := r.delivered ++ [[]] } rest := rfl
-      rw [hstep]
-      apply ih _ (fun x hx => h x (List.mem_cons_of_mem _ hx))
-      simp only [Run.retained, overwrite_nil, List.map_append, List.map_cons, List.map_nil,
-        List.take_zero]
-      rw [← hr]; rfl
-    | some e =>
-      cases e <;> simpa [ioReader, Run.retained] using hr
-
-/-- while only empty windows are out, the first read with data is shown correctly, and so is
-    everything after it as long as no further data arrives -/
-theorem ioReader_one_data (r : Run) (pre : List Read) (rd : Read) (rest : List Read)
-    (hpre : ∀ x ∈ pre, x.data = []) (hrest : ∀ x ∈ rest, x.data = [])
-    (h0 : ∀ n ∈ r.lens, n = 0) (hr : r.retained = r.delivered) :
-    (ioReader r (pre ++ rd :: rest)).retained = (ioReader r (pre ++ rd :: rest)).delivered := by
-  induction pre generalizing r with
-  | nil =>
-    obtain ⟨data, err⟩ := rd
-    -- the empty windows show nothing whatever the buffer holds
-    have hkeep : ∀ buf : Bytes, r.lens.map (fun n => buf.take n) = r.delivered := by
-      intro buf
-      rw [← hr]
-      simp only [Run.retained]
-      apply List.map_congr_left
-      intro n hn
-      rw [h0 n hn]; simp
-    cases err with
-    | none =>
-      have hstep : ioReader r ([] ++ ⟨data, none⟩ :: rest) =
-          ioReader { r with buf := overwrite r.buf data, lens := r.lens ++ [data.length],
-                            delivered := r.delivered ++ [data] } rest := rfl
-      rw [hstep]
-      apply ioReader_dataless _ _ hrest
-      simp only [Run.retained, List.map_append, List.map_cons, List.map_nil, take_overwrite, hkeep]
-    | some e =>
-      cases e <;> simpa [ioReader, Run.retained] using hkeep _
-  | cons p pre ih =>
-    obtain ⟨data, err⟩ := p
-    have hd : data = [] := hpre ⟨data, err⟩ (by simp)
-    subst hd
-    cases err with
-    | none =>
-      have hstep : ioReader r ((⟨[], none⟩ :: pre) ++ rd :: rest) =
-          ioReader { r with buf := overwrite r.buf [], lens := r.lens ++ [0],
-                            delivered := r.delivered ++ [[]] } (pre ++ rd :: rest) := rfl
-      rw [hstep]
-      apply ih _ (fun x hx => hpre x (List.mem_cons_of_mem _ hx))
-      · intro n hn
-        simp only [List.mem_append, List.mem_singleton] at hn
-        rcases hn with hn | hn
-        · exact h0 n hn
-        · exact hn
-      · simp only [Run.retained, overwrite_nil, List.map_append, List.map_cons, List.map_nil,
-          List.take_zero]
-        rw [← hr]; rfl
-    | some e =>
-      cases e <;> simpa [ioReader, Run.retained] using hr
-
-/-
-  Full statement (does NOT hold, `retained_ne_delivered`):
-      ∀ script, (runIOReader script).retained = (runIOReader script).delivered
--/
-/-- **partial**: if at most one read of the script carries data (`script = pre ++ rd :: rest` with
-    `pre` and `rest` dataless), the kept chunks show what was delivered. -/
-theorem ioReader_retained_partial (pre : List Read) (rd : Read) (rest : List Read)
-    (hpre : ∀ x ∈ pre, x.data = []) (hrest : ∀ x ∈ rest, x.data = []) :
-    (runIOReader (pre ++ rd :: rest)).retained = (runIOReader (pre ++ rd :: rest)).delivered :=
-  ioReader_one_data _ pre rd rest hpre hrest (fun _ h => by cases h) rfl
-
-/-- the usual shape: one chunk, then the end of the stream -/
-theorem ioReader_retained_single (d : Bytes) (e : RErr) :
-    (runIOReader [⟨d, none⟩, ⟨[], some e⟩]).retained = [d] ∧
-    (runIOReader [⟨d, none⟩, ⟨[], some e⟩]).delivered = [d] := by
-  have h := ioReader_retained_partial [] ⟨d, none⟩ [⟨[], some e⟩] (fun _ h => by cases h)
-    (fun x hx => by simp only [List.mem_singleton] at hx; rw [hx])
-  have hd : (runIOReader [⟨d, none⟩, ⟨[], some e⟩]).delivered = [d] := by
-    cases e <;> rfl
-  exact ⟨by rw [← hd]; exact h, hd⟩
-
-example : (runIOReader [⟨[], none⟩, ⟨[7, 8, 9], none⟩, ⟨[], none⟩, ⟨[], some (.other 3)⟩]).retained = [[], [7, 8, 9], []] ∧
-    (runIOReader [⟨[], none⟩, ⟨[7, 8, 9], none⟩, ⟨[], none⟩, ⟨[], some (.other 3)⟩]).delivered = [[], [7, 8, 9], []] ∧
-    (runIOReader [⟨[], none⟩, ⟨[7, 8, 9], none⟩, ⟨[], none⟩, ⟨[], some (.other 3)⟩]).term = .error 3 := by
-  decide
-
-/-! ### 5. the repaired reader -/
-
-theorem ioReaderFixed_flatten (acc : List Bytes) (script : List Read) :
-    (ioReaderFixed acc script).1.flatten = acc.flatten ++ produced script := by
-  induction script generalizing acc with
-  | nil => simp [ioReaderFixed, produced]
+theorem handedOn_flatten (script : List Read) : (handedOn script).flatten = produced script := by
+  induction script with
+  | nil => rfl
   | cons rd rest ih =>
     obtain ⟨data, err⟩ := rd
     cases err with
-    | none =>
-      have hstep : ioReaderFixed acc (⟨data, none⟩ :: rest) = ioReaderFixed (acc ++ [data]) rest := rfl
-      rw [hstep, ih]
-      simp [produced]
-    | some e =>
-      have hacc : (if data.length > 0 then acc ++ [data] else acc).flatten = acc.flatten ++ data := by
-        cases data with
-        | nil => simp
-        | cons b bs => simp
-      cases e <;> simpa [ioReaderFixed, produced] using hacc
+    | none => simp [handedOn, produced, ih]
+    | some e => cases data <;> simp [handedOn, produced]
 
-/-- the repaired reader delivers exactly the bytes produced, for every script -/
-theorem ioReaderFixed_concat (script : List Read) :
-    (ioReaderFixed [] script).1.flatten = produced script := by
-  rw [ioReaderFixed_flatten]; rfl
+/-- concatenation of the emitted chunks = the bytes produced, for every script -/
+theorem runIOReader_concat (script : List Read) : (runIOReader script).chunks.flatten = produced script := by
+  rw [runIOReader_chunks, handedOn_flatten]
 
 /-- the first error the reader returns -/
 def firstErr (script : List Read) : Option RErr := script.findSome? (fun rd => rd.err)
@@ -212,28 +59,6 @@ theorem termOf_cons_none (data : Bytes) (rest : List Read) :
     termOf (⟨data, none⟩ :: rest) = termOf rest := by
   simp [termOf, firstErr]
 
-theorem ioReaderFixed_term (acc : List Bytes) (script : List Read) :
-    (ioReaderFixed acc script).2 = termOf script := by
-  induction script generalizing acc with
-  | nil => simp [ioReaderFixed, termOf, firstErr]
-  | cons rd rest ih =>
-    obtain ⟨data, err⟩ := rd
-    cases err with
-    | none =>
-      have hstep : ioReaderFixed acc (⟨data, none⟩ :: rest) = ioReaderFixed (acc ++ [data]) rest := rfl
-      rw [hstep, ih, termOf_cons_none]
-    | some e => cases e <;> simp [ioReaderFixed, termOf, firstErr]
-
-/-- the repaired reader completes iff the first error is EOF -/
-theorem ioReaderFixed_complete_iff (script : List Read) :
-    (ioReaderFixed [] script).2 = .complete ↔ firstErr script = some .eof := by
-  rw [ioReaderFixed_term]
-  unfold termOf
-  cases h : firstErr script with
-  | none => simp
-  | some e => cases e <;> simp
-
-/-- the pinned reader ends the same way (its terminal is not affected by the buffer sharing) -/
 theorem ioReader_term (r : Run) (script : List Read) (hr : r.term = .none) :
     (ioReader r script).term = termOf script := by
   induction script generalizing r with
@@ -243,19 +68,25 @@ theorem ioReader_term (r : Run) (script : List Read) (hr : r.term = .none) :
     cases err with
     | none =>
       have hstep : ioReader r (⟨data, none⟩ :: rest) =
-          ioReader { r with buf := overwrite r.buf data, lens := r.lens ++ [data.length],
-                            delivered := r.delivered ++ [data] } rest := rfl
+          ioReader { buf := overwrite r.buf data, chunks := r.chunks ++ [(overwrite r.buf data).take data.length],
+                     term := r.term } rest := by
+        simp [ioReader]
       rw [hstep, ih _ (by exact hr), termOf_cons_none]
     | some e => cases e <;> simp [ioReader, termOf, firstErr]
 
+/-- Complete iff the first error is EOF, Error k iff it is another error -/
 theorem runIOReader_term (script : List Read) : (runIOReader script).term = termOf script :=
   ioReader_term _ script rfl
 
-example : ioReaderFixed [] [⟨[1, 2], none⟩, ⟨[3, 4], some .eof⟩, ⟨[5], none⟩] = ([[1, 2], [3, 4]], .complete) ∧
-    produced [⟨[1, 2], none⟩, ⟨[3, 4], some .eof⟩, ⟨[5], none⟩] = [1, 2, 3, 4] := by
-  decide
+-- non-vacuity: two chunks survive a third read; bytes that come with EOF are delivered; nothing after it
+example : (runIOReader [⟨[1, 2], none⟩, ⟨[3], none⟩, ⟨[], some .eof⟩]).chunks = [[1, 2], [3]] := by decide
+example : (runIOReader [⟨[1, 2], none⟩, ⟨[3, 4], some .eof⟩, ⟨[5], none⟩]).chunks = [[1, 2], [3, 4]] ∧
+    (runIOReader [⟨[1, 2], none⟩, ⟨[3, 4], some .eof⟩, ⟨[5], none⟩]).term = .complete ∧
+    produced [⟨[1, 2], none⟩, ⟨[3, 4], some .eof⟩, ⟨[5], none⟩] = [1, 2, 3, 4] := by decide
+example : (runIOReader [⟨[], none⟩, ⟨[7, 8, 9], none⟩, ⟨[], some (.other 3)⟩]).chunks = [[], [7, 8, 9]] ∧
+    (runIOReader [⟨[], none⟩, ⟨[7, 8, 9], none⟩, ⟨[], some (.other 3)⟩]).term = .error 3 := by decide
 
-/-! ### 6. the line reader -/
+/-! ### the line reader -/
 
 theorem lineReader_eq (lines : List Bytes) : lineReader lines = lines := by
   simp [lineReader]
